@@ -220,3 +220,4 @@ func zzFinish(wait time.Duration) []string {
 	return zz.failed
 }
 func vSetClockStep(int) {}
+func vSetOneShotTimers(bool) {}
